@@ -173,6 +173,8 @@ class CallMixin:
     def call_ext(self, st, dotted_name, args, kw, node):
         if dotted_name == 'copy.copy':
             return self.shallow_copy(st, self.need_value(args[0]), node)
+        if dotted_name == 'collections.OrderedDict' and not args and not kw:
+            return [(st, SV(TMap(TBottom, TBottom), None))]       # an empty insertion-ordered mapping
         c = api.REGISTRY.get(dotted_name)
         if c is None:
             raise OutsideSubset('no assumed contract for external ' + dotted_name)
@@ -537,6 +539,10 @@ class CallMixin:
                 return self.map_method(st, items, name, args, node)
             c = self.classes.contract_for(cls, name)
             dc, mnode = self.classes.find_method(cls, name)
+            top = api.REGISTRY.get(self.fn_name) if self.fn_name else None
+            if mnode is not None and top is not None and (dc + '.' + name) in getattr(top, 'inline_calls', ()) \
+                    and self.inline_depth == 0:
+                return self.inline_call(st, dc + '.' + name, mnode, [recv] + list(args), kw, node)
             if c is not None and (dc is None or c.qualname == dc + '.' + name or
                                   not self.should_inline(dc + '.' + name)):
                 return self.apply_contract(st, c, args, kw, node, self_sv=recv,
@@ -554,7 +560,10 @@ class CallMixin:
         raise OutsideSubset('method %s on %s' % (name, ty))
 
     def should_inline(self, qual):
-        return qual in api.INLINE
+        if qual in api.INLINE:
+            return True
+        top = api.REGISTRY.get(self.fn_name) if self.fn_name else None
+        return top is not None and qual in getattr(top, 'inline_calls', ())
 
     def call_function(self, st, qual, args, kw, node):
         c = api.REGISTRY.get(qual)
